@@ -2,8 +2,8 @@
 """Mechanical mutants of the library (beside the hand-made seeds): relational / logical operator flips, constant nudges and
 statement deletions on sampled lines.  A mutant counts only if the library still builds and the repository's own tests
 still pass; it is then applied to /repo, the quick checks of the properties anchored in that file are run, and /repo is
-restored.  usage: mutate.py <n> [seed]   (exclusive use of /repo's working tree; scratch worktree /tmp/wt_mut, removed)"""
-import os, random, re, subprocess, sys, json, shutil
+restored.  usage: [MUT_MINUTES=90] mutate.py <n> [seed]   (exclusive use of /repo's working tree; scratch worktree /tmp/wt_mut, removed)"""
+import os, random, re, subprocess, sys, json, shutil, time
 V = os.path.dirname(os.path.dirname(os.path.abspath(__file__)))
 N = int(sys.argv[1]) if len(sys.argv) > 1 else 40
 rng = random.Random(int(sys.argv[2]) if len(sys.argv) > 2 else 7)
@@ -14,6 +14,7 @@ FILES = {"src/src/cache.cpp": ["C05", "C06", "C18"], "src/src/prober.cpp": ["C07
 OPS = [(r"<=", "<"), (r"(?<![<>=!])<(?![<=])", "<="), (r">=", ">"), (r"==", "!="), (r"!=", "=="), (r"&&", "||"), (r"\|\|", "&&"),
        (r"\btrue\b", "false"), (r"\bfalse\b", "true"), (r"\+\+", "--"), (r"(\d+)\b", None)]
 W = "/tmp/wt_mut"
+DEADLINE = time.time() + 60 * int(os.environ.get("MUT_MINUTES", "90"))
 def sh(cmd, **kw): return subprocess.run(cmd, shell=isinstance(cmd, str), capture_output=True, text=True, **kw)
 sh(["git", "-C", "/repo", "worktree", "remove", "--force", W]); sh(["git", "-C", "/repo", "worktree", "add", "--detach", W, "HEAD"])
 sh("cmake -S %s -B %s/_b -G Ninja -DBUILD_TESTS=ON && cmake --build %s/_b -j16" % (W, W, W))
@@ -36,7 +37,7 @@ for f in FILES:
 rng.shuffle(cands)
 rows = []
 for f, i, a, b, rep in cands:
-    if len(rows) >= N: break
+    if len(rows) >= N or time.time() > DEADLINE: break
     src = open(os.path.join(W, f)).read().split("\n")
     old = src[i]
     new = (old[:a] + rep + old[b:]) if a is not None else re.sub(r"\S.*", "; // (statement removed)", old, count=1)
@@ -56,6 +57,8 @@ for f, i, a, b, rep in cands:
             p = sh([sys.executable, os.path.join(V, "tools", "check.py"), pid, "--tier", "quick"], timeout=1800)
             vio = [x for x in p.stdout.splitlines() if x.startswith("VIOLATION")]
             res[pid] = "input" if any("no-failing-input-found" not in x for x in vio) else ("no-input" if vio else "-")
+            if vio:
+                break          # flagged: the remaining checks of this file are not needed for the score
     finally:
         sh(["git", "-C", "/repo", "checkout", "--", "."])
     rows.append({"file": f, "line": i + 1, "old": old.strip(), "new": new.strip(), "checks": res,
